@@ -226,13 +226,30 @@ func mutateRecord(r *rand.Rand, rec []byte, muts []HMut) []byte {
 			if len(out) >= 12 {
 				binary.BigEndian.PutUint16(out[9+m.A%(len(out)-11):], uint16(m.B))
 			}
-		case "dup-ext", "drop-ext", "swap-ext", "dup-ech", "ext-edge", "field-edge":
+		case "dup-ext", "drop-ext", "swap-ext", "dup-ech", "ext-edge", "field-edge", "ech-ids":
 			h, err := echbox.ParseHelloRecord(out)
 			if err != nil || len(h.Exts) == 0 {
 				continue
 			}
 			i := m.A % len(h.Exts)
 			switch m.Kind {
+			case "ech-ids":
+				// the ECH extension names a KDF / AEAD / config id combination from
+				// the edges of the registries; everything else stays as it is
+				if e := h.Find(echbox.ExtECH); e >= 0 {
+					if o, perr := echbox.ParseECHOuter(h.Exts[e].Data); perr == nil {
+						ids := []uint16{0, 1, 2, 3, 4, 5, 0x7fff, 0xffff}
+						switch m.A % 3 {
+						case 0:
+							o.AEAD = ids[m.B%len(ids)]
+						case 1:
+							o.KDF = ids[m.B%len(ids)]
+						case 2:
+							o.KDF, o.AEAD = ids[m.B%len(ids)], ids[(m.B/8)%len(ids)]
+						}
+						h.Exts[e].Data = o.Bytes()
+					}
+				}
 			case "ext-edge":
 				// the body of one extension (preferring the ones the Conn parses)
 				// replaced by a degenerate but length-consistent body
@@ -475,7 +492,7 @@ func executeHostile(t *testing.T, prop string, seed uint64, p *HostilePlan) *cor
 	return res
 }
 
-var hmutKinds = []string{"flip", "flip", "set", "trunc", "trunc-fix", "append", "reclen", "hslen", "u16at", "u16at", "dup-ext", "drop-ext", "swap-ext", "dup-ech", "ext-edge", "ext-edge", "field-edge"}
+var hmutKinds = []string{"flip", "flip", "set", "trunc", "trunc-fix", "append", "reclen", "hslen", "u16at", "u16at", "dup-ext", "drop-ext", "swap-ext", "dup-ech", "ext-edge", "ext-edge", "field-edge", "ech-ids"}
 
 func genHRecs(r *rand.Rand, side string) []HRec {
 	n := r.IntN(6)
